@@ -10,10 +10,14 @@ abbrev Bytes := List UInt8
 open Lean in
 /-- `b!"text"` elaborates to the explicit byte list of the (UTF-8) literal, so that
     the kernel can compute with model constants (`String.toUTF8` does not reduce). -/
-macro "b!" s:str : term => do
-  let bytes := s.getString.toUTF8.toList
-  let elems : Array (TSyntax `term) := (bytes.map (fun b => Syntax.mkNumLit (toString b.toNat))).toArray
-  `(([ $elems,* ] : List UInt8))
+syntax:max "b!" str : term
+
+open Lean in
+macro_rules
+  | `(b! $s:str) => do
+    let bytes := s.getString.toUTF8.toList
+    let elems : Array (TSyntax `term) := (bytes.map (fun b => Syntax.mkNumLit (toString b.toNat))).toArray
+    `(([ $elems,* ] : List UInt8))
 
 namespace B
 
